@@ -1,12 +1,22 @@
 (** C05 - generic definitions are recovered as generics (source round trip).
 
-    Full statement (C05_skeleton_is_source, under construction): for a program of generic
-    definitions, the registry scale-info derives from it and every coincidence-free
-    instantiation ([instantiation_cf]), the item generated at the definition's path equals
-    [expected_item] of the SOURCE definition (up to derives and docs), whatever instantiation
-    comes first.  Until that theorem is pinned it is decided per generated program by the
-    checker [prop_source_roundtrip] (Corr/RunC05.v) on the implementation's observed output.
-    Pinned here: what [expected_item] -- the specification -- says. *)
+    Full statement of the property: for a program of generic definitions, the registry
+    scale-info derives from it and every coincidence-free instantiation ([instantiation_cf]), the
+    item generated at the definition's path equals [expected_item] of the SOURCE definition (up to
+    derives and docs), whatever instantiation comes first.
+    PROVED (below): everything up to and including the IR - [C05_skeleton_is_source]: the erased
+    IR of every coincidence-free instantiation is [ir_of_source] of the source definition (all of
+    [src] except a Cow directly inside a Cow); the field types of that IR read back as parsed
+    types are [field_pty] of the source fields ([C05_fields_read_as_source]), i.e. the field types
+    of [expected_item]; all instantiations give one erased IR ([C05_one_item]); program registries
+    are skeleton-consistent ([C05_program_skeleton_consistent]), so the item kept for the path
+    (C01_lookup: the IR of the FIRST instantiation) represents every instantiation faithfully
+    ([C05_program_faithful]).
+    MISSING for the full statement: the emission step as a theorem - that the tokens [emit_module]
+    prints for [ir_of_source d], parsed by Checkers/Parse.v, are [expected_item d] (marker field,
+    attributes, item syntax).  That step is decided per generated program by the checker
+    [prop_source_roundtrip] (Corr/RunC05.v) on the implementation's observed output.
+    First: what [expected_item] -- the specification -- says. *)
 From Coq Require Import List NArith String Bool.
 From V Require Import Base.Strings Model.Registry Model.Program Checkers.Parse.
 Import ListNotations.
@@ -40,49 +50,69 @@ Theorem C05_spec_erasures :
 Proof. intros. repeat split. Qed.
 Print Assumptions C05_spec_erasures.
 
-(** ** the round trip as a theorem (Proofs/SourceRoundTrip.v)
+(** ** the round trip as a theorem (Proofs/SourceRoundTrip.v, SourceSkeleton.v, SourceReading.v)
 
-    FULL STATEMENT ([C05_skeleton_is_source]): for [RegistryOf prog L r] (Model/Program.v: [L] labels
-    ids with closed canonical source types, injectively; every entry is locally what the derive
-    produces for its label), an id labelled [SApp d args] with [instantiation_cf], and the IR
-    [create_type_ir r s t flat = Ok (Some ir)] of its entry: [ti_params ir] are exactly the
-    non-skipped parameters with [tpi_idx] = declared position; every field of [ir], up to the
-    ids stored in [Param] nodes, is [normal_field] of the SOURCE field (path = [src_tpath] of the
-    source field type: parameters in the same positions, Box / Cow transparent, VecDeque = Vec;
-    compact and boxed flags as [field_compact] / [has_box]), so that
-    [tpath_pty (fi_path f) = field_pty sf] read as parsed types; [ti_unused ir] = the declared
-    generics not in [body_params]; hence all instantiations have [erase_ids]-equal IRs.
+    [RegistryOf defs L r] (Model/Program.v): [L] labels ids with closed canonical source types,
+    injectively; every entry is locally what the derive produces for its label (prelude types and
+    bit sequences included; the bit-order markers are the only unlabelled entries).
 
-    PROVED below (the [_partial] theorems), universally, by induction on the source field type:
-    parameters and all fields ([erase_fi fi = normal_field sf], which contains the path, the
-    compact flag and the boxed flag), for definitions whose field types are in [src_fragment]:
-    parameters, applications of definitions (any nesting, skipped parameters), Vec, VecDeque,
-    arrays, tuples, primitives, Compact (explicit and [#[codec(compact)]]), Box.
-    MISSING: (1) the prelude types Option / Result / BTreeMap / BTreeSet / Cow / Range and bit
-    sequences (they are in [RegistryOf], [src_tpath] and [registry_ofb], not in the induction);
-    substituted definition paths ([def_okb]); (2) [ti_unused] and the names of fields / variants
-    (so [erase_ids ir1 = erase_ids ir2] is proved for the parameter positions and the fields only);
-    (3) the reading [tpath_pty (src_tpath sigma) = src_pty sigma] as a general lemma - it is
-    evaluated on the example ([C05_example]); (4) soundness of [registry_ofb] w.r.t. [RegistryOf]
-    and the Coq re-implementation of the harness interner ([intern_program]) - [RegistryOf] is
-    proved directly for the example and [registry_ofb] evaluates to [true] on it.
-    Extra decidable hypotheses found while proving: the arguments of the label are canonical
-    ([map canon args = args], true of labels); [compact_fields_okb]: a [#[codec(compact)]] field
-    whose [Compact<..>] type coincides with an argument must record a type name different from
-    that parameter's name (else [find_parent] takes it for the parameter); [box_names_okb]: the
-    recorded type name contains ["Box<"] exactly when the source type mentions Box. *)
-From V Require Import Base.Result Model.Settings Model.TypePath Model.Generate Model.WellFormed Model.Shape
-  Proofs.SourceRoundTrip.
+    [C05_skeleton_is_source]: for an id labelled [SApp d args] with [instantiation_cf] and the IR
+    [create_type_ir r s t flat = Ok (Some ir)] of its entry, the WHOLE erased IR ([erase_ids],
+    Model/Shape.v: everything but the ids / original names stored in parameters, docs, derives) is
+    [ir_of_source defs s order_tp sd] (Model/ProgramSkel.v), a function of the SOURCE definition:
+    [ti_params] = the non-skipped parameters by declared position; [ti_unused] = the declared
+    generics not in [body_params]; item / variant / field names and variant indices; every field
+    = [normal_field] of the source field (path = [src_tpath] of the source field type: parameters
+    in the same positions, Box / Cow transparent, VecDeque = Vec; compact and boxed flags).
+    The source types covered are ALL of [src] except a Cow directly inside a Cow (Box in between
+    does not count), hypothesis [no_cow_cow] (finding F16: the generator looks through one Cow).
+    Hypotheses beyond the quantifier of C05, all decidable, found while proving:
+    - [def_okb]: item paths not substituted, namespaced, identifiers, not called Cow;
+    - [prelude_okb]: Option / Result / BTreeMap / BTreeSet / Range are not substituted;
+    - [order_resolves s order_tp]: [order_tp lsb] is what the settings turn the bit-order marker
+      path into (substitute or generated item), decidable as [order_resolvesb];
+    - the arguments of the label are canonical ([map canon args = args], true of labels);
+    - [compact_fields_okb]: a [#[codec(compact)]] field whose [Compact<..>] type coincides with an
+      argument records a type name different from that parameter's name;
+    - [box_names_okb]: the recorded type name contains ["Box<"] exactly when the type mentions Box.
+    [registry_ofb] (the boolean the harness evaluates on every interned / compiled program) is
+    sound w.r.t. [RegistryOf] ([C05_registry_ofb_sound]) when the prelude entries carry no docs.
+    NOT proved: the Coq re-implementation of the harness interner ([intern_program]). *)
+From V Require Import Base.Result Model.Settings Model.TypePath Model.Generate Model.Equal Model.WellFormed Model.Shape
+  Model.ProgramSkel Model.ProgramTeq Model.ProgramExamples
+  Proofs.SourceRoundTrip Proofs.SourceSkeleton Proofs.SourceReading Proofs.RegistryOfSound Proofs.ProgramExamples.
 
-Theorem C05_skeleton_is_source_partial :
+Theorem C05_skeleton_is_source :
   forall (defs : list sdef) (L : N -> option src) (r : registry) (s : settings) (order_tp : bool -> tpath),
   RegistryOf defs L r ->
   (forall sd, In sd defs -> def_okb s sd = true) ->
+  prelude_okb s = true ->
+  order_resolves s order_tp ->
   forall (d : nat) (sd : sdef) (args : list src),
   nth_error defs d = Some sd ->
   instantiation_cf defs sd args = true ->
   map canon args = args ->
-  forallb field_fragment (def_sfields sd) = true ->
+  forallb (fun f => no_cow_cow (sf_ty f)) (def_sfields sd) = true ->
+  compact_fields_okb defs sd args = true ->
+  box_names_okb defs sd = true ->
+  forall t : ty, entry_of defs L r (SApp d args) t ->
+  forall flat ir, create_type_ir r s t flat = Ok (Some ir) ->
+  erase_ids ir = ir_of_source defs s order_tp sd.
+Proof. exact skeleton_full. Qed.
+Print Assumptions C05_skeleton_is_source.
+
+(** the parts of the above that were pinned first: parameter positions and fields *)
+Theorem C05_skeleton_params_and_fields :
+  forall (defs : list sdef) (L : N -> option src) (r : registry) (s : settings) (order_tp : bool -> tpath),
+  RegistryOf defs L r ->
+  (forall sd, In sd defs -> def_okb s sd = true) ->
+  prelude_okb s = true ->
+  order_resolves s order_tp ->
+  forall (d : nat) (sd : sdef) (args : list src),
+  nth_error defs d = Some sd ->
+  instantiation_cf defs sd args = true ->
+  map canon args = args ->
+  forallb (fun f => no_cow_cow (sf_ty f)) (def_sfields sd) = true ->
   compact_fields_okb defs sd args = true ->
   box_names_okb defs sd = true ->
   forall t : ty, entry_of defs L r (SApp d args) t ->
@@ -91,34 +121,122 @@ Theorem C05_skeleton_is_source_partial :
   Forall2 (fun sf fi => erase_fi fi = normal_field defs s order_tp sf)
           (def_sfields sd) (kind_fields (ti_kind ir)).
 Proof. exact skeleton_is_source. Qed.
-Print Assumptions C05_skeleton_is_source_partial.
+Print Assumptions C05_skeleton_params_and_fields.
 
-(** two instantiations of one definition: same parameter positions, same fields up to ids
-    (the part of [skeleton_consistent] - the hypothesis of [C01_fidelity] - that concerns
-    parameters and field types) *)
-Theorem C05_one_item_partial :
+(** what [ir_of_source] is: declared positions, unused = declared generics not in [body_params] *)
+Theorem C05_ir_of_source_spec :
+  forall defs s order_tp d,
+    ti_params (ir_of_source defs s order_tp d) = map pos_tpi (generics_of d) /\
+    ti_unused (ir_of_source defs s order_tp d) =
+      map pos_tpi (filter (fun i => negb (existsb (Nat.eqb i) (body_params defs (sd_body d)))) (generics_of d)) /\
+    kind_fields (ti_kind (ir_of_source defs s order_tp d)) = map (normal_field defs s order_tp) (def_sfields d).
+Proof. exact ir_of_source_spec. Qed.
+Print Assumptions C05_ir_of_source_spec.
+
+(** the reading as parsed types, in general: the normalised path of a source type, read back by
+    [tpath_pty] (the rendering the parser of Checkers/Parse.v inverts), is [src_pty] of the source
+    type - the type expression [expected_item] puts into the expected item - with the token-level
+    parameters of [src_pty] read off the settings.  [render_okb]: the alloc path is [::seg::..],
+    no path segment is the token [:]; [apps_okb]: applications name existing definitions *)
+Theorem C05_tpath_pty_is_src_pty :
+  forall defs s (order_tp : bool -> tpath),
+  render_okb s defs = true ->
+  forall t, apps_okb defs t = true ->
+  tpath_pty (alloc_segs s) (src_tpath defs s order_tp false t) =
+  src_pty defs (s_root s) (alloc_segs s) (segs_lead_of (opt_toks (s_compact s)))
+          (segs_lead_of (opt_toks (s_bits s))) (fun lsb => tpath_pty (alloc_segs s) (order_tp lsb)) t.
+Proof. exact tpath_pty_src. Qed.
+Print Assumptions C05_tpath_pty_is_src_pty.
+
+(** ... hence every field of the IR of an instantiation, read as a parsed type (a boxed field
+    wrapped at field level), is [field_pty] of the SOURCE field.  [field_conv_okb]: the
+    conventions of [field_pty] - a compact behind transparent wrappers is written [Compact<T>] or
+    [Cow<Compact<T>>], a [#[codec(compact)]] field is not itself a [Compact<..>] *)
+Theorem C05_fields_read_as_source :
   forall defs L r s (order_tp : bool -> tpath),
   RegistryOf defs L r -> (forall sd, In sd defs -> def_okb s sd = true) ->
+  prelude_okb s = true -> order_resolves s order_tp -> render_okb s defs = true ->
+  forall d sd args, nth_error defs d = Some sd ->
+  instantiation_cf defs sd args = true -> map canon args = args ->
+  forallb (fun f => no_cow_cow (sf_ty f)) (def_sfields sd) = true ->
+  compact_fields_okb defs sd args = true -> box_names_okb defs sd = true ->
+  forallb (fun f => apps_okb defs (sf_ty f) && field_conv_okb f) (def_sfields sd) = true ->
+  forall t, entry_of defs L r (SApp d args) t ->
+  forall flat ir, create_type_ir r s t flat = Ok (Some ir) ->
+  Forall2 (fun sf fi =>
+             fi_pty (alloc_segs s) fi =
+             field_pty defs (s_root s) (alloc_segs s) (segs_lead_of (opt_toks (s_compact s)))
+                       (segs_lead_of (opt_toks (s_bits s)))
+                       (fun lsb => tpath_pty (alloc_segs s) (order_tp lsb)) sf)
+          (def_sfields sd) (kind_fields (ti_kind ir)).
+Proof. exact fields_read_as_source. Qed.
+Print Assumptions C05_fields_read_as_source.
+
+(** two instantiations of one definition have the same erased IR *)
+Theorem C05_one_item :
+  forall defs L r s (order_tp : bool -> tpath),
+  RegistryOf defs L r -> (forall sd, In sd defs -> def_okb s sd = true) ->
+  prelude_okb s = true -> order_resolves s order_tp ->
   forall d sd, nth_error defs d = Some sd ->
-  forallb field_fragment (def_sfields sd) = true -> box_names_okb defs sd = true ->
+  forallb (fun f => no_cow_cow (sf_ty f)) (def_sfields sd) = true -> box_names_okb defs sd = true ->
   forall args1 args2 t1 t2 flat1 flat2 ir1 ir2,
   instantiation_cf defs sd args1 = true -> map canon args1 = args1 -> compact_fields_okb defs sd args1 = true ->
   instantiation_cf defs sd args2 = true -> map canon args2 = args2 -> compact_fields_okb defs sd args2 = true ->
   entry_of defs L r (SApp d args1) t1 -> entry_of defs L r (SApp d args2) t2 ->
   create_type_ir r s t1 flat1 = Ok (Some ir1) -> create_type_ir r s t2 flat2 = Ok (Some ir2) ->
-  map tpi_idx (ti_params ir1) = map tpi_idx (ti_params ir2) /\
-  Forall2 (fun f1 f2 => erase_fi f1 = erase_fi f2) (kind_fields (ti_kind ir1)) (kind_fields (ti_kind ir2)).
-Proof. exact one_item. Qed.
-Print Assumptions C05_one_item_partial.
+  erase_ids ir1 = erase_ids ir2.
+Proof. exact one_item_full. Qed.
+Print Assumptions C05_one_item.
+
+(** hence the registry of a program all of whose interned instantiations are coincidence-free is
+    [skeleton_consistent] - the main hypothesis of [C01_fidelity], [C03_consistent_is_faithful],
+    [C17_permutation_tokens].  Hypotheses: the definitions are ok (as above; additionally no
+    definition sits at the path of a bit-order marker), paths of definitions pairwise distinct,
+    and every item-eligible entry has an IR at all (a consequence of successful generation, see
+    [C05_program_faithful]; it fails e.g. when a compact field is used without a compact path) *)
+Theorem C05_program_skeleton_consistent :
+  forall defs L r s (order_tp : bool -> tpath),
+  RegistryOf defs L r -> prelude_okb s = true -> order_resolves s order_tp ->
+  (forall sd, In sd defs ->
+     def_okb s sd = true /\ forallb (fun f => no_cow_cow (sf_ty f)) (def_sfields sd) = true /\
+     box_names_okb defs sd = true /\ forall lsb, sd_path sd <> order_path_of lsb) ->
+  (forall d1 d2 sd1 sd2,
+     nth_error defs d1 = Some sd1 -> nth_error defs d2 = Some sd2 -> sd_path sd1 = sd_path sd2 -> d1 = d2) ->
+  (forall id d args sd,
+     L id = Some (SApp d args) -> nth_error defs d = Some sd ->
+     instantiation_cf defs sd args = true /\ map canon args = args /\ compact_fields_okb defs sd args = true) ->
+  (forall id X, In (id, X) r -> item_eligible s X = true ->
+     exists ir, create_type_ir r s X flat0 = Ok (Some ir)) ->
+  skeleton_consistent r s.
+Proof. exact program_skeleton_consistent. Qed.
+Print Assumptions C05_program_skeleton_consistent.
+
+(** ... and with [C01_fidelity]: whenever generation succeeds on a program-derived registry with
+    coincidence-free instantiations, every type expression has the registry shape of its id *)
+Theorem C05_program_faithful :
+  forall defs L r s (order_tp : bool -> tpath) teq m,
+  RegistryOf defs L r -> prelude_okb s = true -> order_resolves s order_tp ->
+  (forall sd, In sd defs ->
+     def_okb s sd = true /\ forallb (fun f => no_cow_cow (sf_ty f)) (def_sfields sd) = true /\
+     box_names_okb defs sd = true /\ forall lsb, sd_path sd <> order_path_of lsb) ->
+  (forall d1 d2 sd1 sd2,
+     nth_error defs d1 = Some sd1 -> nth_error defs d2 = Some sd2 -> sd_path sd1 = sd_path sd2 -> d1 = d2) ->
+  (forall id d args sd,
+     L id = Some (SApp d args) -> nth_error defs d = Some sd ->
+     instantiation_cf defs sd args = true /\ map canon args = args /\ compact_fields_okb defs sd args = true) ->
+  root_fresh s -> generate r s teq = Ok m -> Faithful r s m.
+Proof. exact program_faithful. Qed.
+Print Assumptions C05_program_faithful.
 
 (** non-vacuity: [a::Foo<T, #[skip] U> { x: T, y: Box<Vec<T>>, #[codec(compact)] n: u32 }] at
     [u16] and [bool]: the registry satisfies [RegistryOf] (and [registry_ofb]), every hypothesis
     holds, the IRs exist, and the fields read as parsed types are the source field types *)
 Theorem C05_example :
   RegistryOf ex5_defs ex5_L ex5_reg /\ registry_ofb ex5_defs ex5_labels ex5_reg = true /\
+  (prelude_okb ex5_s = true /\ order_resolves ex5_s ex5_otp /\ render_okb ex5_s ex5_defs = true) /\
   (forall sd, In sd ex5_defs -> def_okb ex5_s sd = true) /\
   nth_error ex5_defs 0 = Some ex5_sd /\
-  forallb field_fragment (def_sfields ex5_sd) = true /\ box_names_okb ex5_defs ex5_sd = true /\
+  forallb (fun f => no_cow_cow (sf_ty f)) (def_sfields ex5_sd) = true /\ box_names_okb ex5_defs ex5_sd = true /\
   instantiation_cf ex5_defs ex5_sd [SPrimT PU16; SPrimT PStr] = true /\
   instantiation_cf ex5_defs ex5_sd [SPrimT PBool; SPrimT PStr] = true /\
   compact_fields_okb ex5_defs ex5_sd [SPrimT PU16; SPrimT PStr] = true /\
@@ -131,5 +249,36 @@ Theorem C05_example :
               map (field_pty ex5_defs "root" ["std"] (["codec"; "Compact"], true) ([], false) (fun _ => PBad))
                   (def_sfields ex5_sd)) /\
   (exists ir, create_type_ir ex5_reg ex5_s (ex5_foo 6 7 3) flat0 = Ok (Some ir)).
-Proof. exact (conj ex5_RegistryOf (conj ex5_registry_ofb ex5_hypotheses)). Qed.
+Proof. exact (conj ex5_RegistryOf (conj ex5_registry_ofb (conj ex5_settings_ok ex5_hypotheses))). Qed.
 Print Assumptions C05_example.
+
+(** the decidable checker is sound ([prelude_nodocs_b]: [registry_ofb] compares the fields and
+    variants of prelude entries up to docs, [RegistryOf] fixes them as scale-info emits them) *)
+Theorem C05_registry_ofb_sound :
+  forall defs labels r,
+    registry_ofb defs labels r = true -> prelude_nodocs_b r = true -> RegistryOf defs (label_at labels) r.
+Proof. exact registry_ofb_sound. Qed.
+Print Assumptions C05_registry_ofb_sound.
+
+(** non-vacuity on the prelude part of the fragment:
+    [a::Bar<T> { A(Option<T>, BTreeMap<u8, T>), B { bits: BitVec<u8, Lsb0>, c: Cow<'static, Vec<T>> } }]
+    at [u16] and [bool]: every hypothesis of [C05_skeleton_is_source] / [C05_fields_read_as_source]
+    holds, both IRs exist and their erased form IS [ir_of_source] (recomputed here), the registry
+    is skeleton-consistent and generation succeeds *)
+Theorem C05_example_prelude :
+  RegistryOf ex6_defs (label_at ex6_labels) ex6_reg /\
+  (prelude_okb ex6_s = true /\ order_resolves ex6_s ex6_otp /\ render_okb ex6_s ex6_defs = true) /\
+  (forall sd, In sd ex6_defs -> def_okb ex6_s sd = true) /\
+  nth_error ex6_defs 0 = Some ex6_sd /\
+  forallb (fun f => no_cow_cow (sf_ty f)) (def_sfields ex6_sd) = true /\ box_names_okb ex6_defs ex6_sd = true /\
+  forallb (fun f => apps_okb ex6_defs (sf_ty f) && field_conv_okb f) (def_sfields ex6_sd) = true /\
+  instantiation_cf ex6_defs ex6_sd [SPrimT PU16] = true /\ instantiation_cf ex6_defs ex6_sd [SPrimT PBool] = true /\
+  compact_fields_okb ex6_defs ex6_sd [SPrimT PU16] = true /\ compact_fields_okb ex6_defs ex6_sd [SPrimT PBool] = true /\
+  (exists ir, create_type_ir ex6_reg ex6_s (ex6_bar 1 2 3 10) flat0 = Ok (Some ir) /\
+              erase_ids ir = ir_of_source ex6_defs ex6_s ex6_otp ex6_sd) /\
+  (exists ir, create_type_ir ex6_reg ex6_s (ex6_bar 12 13 14 18) flat0 = Ok (Some ir) /\
+              erase_ids ir = ir_of_source ex6_defs ex6_s ex6_otp ex6_sd) /\
+  skeleton_consistentb ex6_reg ex6_s = true /\
+  is_ok (generate ex6_reg ex6_s (types_equal ex6_reg)) = true.
+Proof. exact (conj ex6_RegistryOf (conj ex6_settings_ok ex6_hypotheses)). Qed.
+Print Assumptions C05_example_prelude.
